@@ -8,11 +8,11 @@ replay = base.s_replay
 
 def run(tier):
     if tier == "quick":
-        jobs = [chrun.SJob("vlib.sh.c10", "c10", base.parts(130), 600,
+        jobs = [chrun.SJob("vlib.sh.c10", "c10", base.parts(117), 600,
                            what="Select on an untyped dataset with every root form x 8 representative child forms (leaf, unary, comparison, tuple, dict, call, subscript, nested lambda) in one operand position (13 forms: leaf, unary -, not, "
                                 "binary op, comparison, and/or, conditional, tuple/list, dict, call with positional+keyword arguments / receiver / function, "
                                 "subscript incl. tuple and dict literals, attribute incl. dict literal, nested lambda re-using or not the outer parameter) x operand "
-                                "position x operator variants; all 7 leaf kinds directly under each root form, the attribute leaf under other child forms; SelectMany and Where with the 13 root forms over leaves; names from a pool of 2 incl. "
+                                "position x operator variants; all 7 leaf kinds directly under each root form, the attribute leaf under other child forms; Where with the 13 root forms over leaves (SelectMany too in the thorough tier); names from a pool of 2 incl. "
                                 "names meaningful to ast objects; symbolic: the chooser's decisions (solver-split), integer constants (unbounded where no refusal "
                                 "message renders them, one digit otherwise), dict key string (any str len<=2, or a 4-entry table where rendered), tuple index in [-3,3]; "
                                 "oracle: emitted lambda structurally identical to the input; ValueError only for the designed refusals recognised from the input shape")]
